@@ -890,6 +890,47 @@ func checkCacheBeforeBroadcast(p *Prog, r *Roles, w *watchRoles, res *Result) {
 			}
 		}
 	}
+	if !okValid {
+		// the event may be built by a helper of the sequencer that tests the slot itself: every construction of an
+		// event in the sequencer's function and the package functions it calls sits behind Valid == true
+		nAlloc, allGuarded := 0, true
+		seenFn := map[*ssa.Function]bool{}
+		var visit func(f *ssa.Function, d int)
+		visit = func(f *ssa.Function, d int) {
+			if f == nil || f.Blocks == nil || seenFn[f] || d > 2 || f.Pkg != seq.Pkg {
+				return
+			}
+			seenFn[f] = true
+			for _, b := range f.Blocks {
+				for _, ins := range b.Instrs {
+					if al, ok := ins.(*ssa.Alloc); ok && types.Identical(al.Type(), types.NewPointer(evType)) {
+						nAlloc++
+						guarded := false
+						for _, cf := range localFacts(b) {
+							if cf.Raw == nil || !cf.Want {
+								continue
+							}
+							if ld, ok := resolve(cf.Raw).(*ssa.UnOp); ok {
+								if fa, ok := ld.X.(*ssa.FieldAddr); ok && fieldOf(fa) == validField {
+									guarded = true
+								}
+							}
+						}
+						if !guarded {
+							allGuarded = false
+						}
+					}
+					if c, ok := ins.(*ssa.Call); ok {
+						visit(c.Common().StaticCallee(), d+1)
+					}
+				}
+			}
+		}
+		visit(seq, 0)
+		if nAlloc > 0 && allGuarded {
+			okValid = true
+		}
+	}
 	if okValid {
 		res.ok("C05-R2", construct, p.pos(batchStore.Pos()), "event construction is dominated by Valid == true")
 	} else {
